@@ -113,54 +113,56 @@ def c11b(ctx, tu):
                 ctx.ob("C11.b", name + " element step", ok, pattern=lam.pat, unit=tu.name, inst=lam.q,
                        detail="" if ok else "the range iterator is dereferenced / advanced without having been compared "
                        "with the end of the range (reads past a range shorter than the element list)")
-    # ends_with: advance(it, size - n) only when size >= n
+    # ends_with: a range shorter than the element list does not match, otherwise the iterator is advanced to
+    # size - n before anything is dereferenced.  Decided by interpreting the checker on every (size, n).
+    class Advanced(Exception):
+        pass
+
     for name in (I + "ends_with_checker::operator()", I + "ends_with_range_checker::operator()"):
         for fn in tu.find(name):
             n += 1
-            adv = cfg.find_events(fn, lambda e: e["e"] == "call" and qe(e) == "std::advance")
-            g = None
-            short_edge = 0          # the edge on which the range is SHORTER than the element list
-            for bid in fn.blocks:
-                c = cfg.cond_of(fn, bid)
-                if c is None:
-                    continue
-                t, pol = cond_shape(c)
-                if isinstance(t, list) and t[:1] == ["b"] and t[1] in ("<", ">", "<=", ">="):
-                    g = bid
-                    gt = t
-                    gpol = pol
-            ok = len(adv) == 1 and g is not None
-            why = "suffix match needs exactly one advance to the tail, guarded by a size test"
-            if ok:
-                decls = {e["var"]: e for b, e in fn.events() if e["e"] == "decl"}
-                def origin(t):
-                    if t[:1] == ["var"] and t[1] in decls:
-                        return str(decls[t[1]].get("init"))
-                    return str(t)
-                lhs, rhs = origin(gt[2]), origin(gt[3])
-                op = gt[1]
-                if "std::distance" in rhs:      # written the other way round:  n > size
-                    lhs, rhs = rhs, lhs
-                    op = {"<": ">", ">": "<", "<=": ">=", ">=": "<="}[op]
-                ok = "std::distance" in lhs and ("sizeof" in rhs or "::size" in rhs or "'int'" in rhs) and op in ("<", ">=")
-                why = "the guard must compare the range's length (std::distance) with the number of elements (size < n)"
-                # size < n true  -> short ; size >= n true -> long enough
-                short_when = (op == "<")
-                short_edge = (0 if gpol else 1) if short_when else (1 if gpol else 0)
-                if ok:
-                    ok = cfg.edge_dominates(fn, (g, 1 - short_edge), adv[0][0])
-                    why = "advance to the tail must only happen when the range is at least as long as the element list"
-                if ok:
-                    # short range: false
-                    rets = [(b["id"], e.get("x")) for b, e in fn.events() if e["e"] == "return"]
-                    fb = [b for b, x in rets if x == ["bool", False]]
-                    ok = len(fb) == 1 and cfg.edge_dominates(fn, (g, short_edge), fb[0])
-                    why = "a range shorter than the element list must not match"
-                if ok:
-                    a = adv[0][2]["args"]
-                    ok = a[1][:2] == ["b", "-"]
-                    why = "the tail starts at size - number of elements"
-            ctx.ob("C11.b", name, ok, pattern=fn.pat, unit=tu.name, inst=fn.q, detail="" if ok else why)
+            k_fixed = len(fn.rec["params"]) - 1 if name.endswith("ends_with_checker::operator()") else None
+            try:
+                bad = None
+                for size in (0, 1, 2, 3):
+                    for nn in ((k_fixed,) if k_fixed is not None else (0, 1, 2, 3)):
+                        seen = {}
+                        def oracle(kind, t, itp, size=size, nn=nn, seen=seen):
+                            if kind == "call":
+                                nm = tname(t) or ""
+                                if nm == "std::distance":
+                                    return size
+                                if nm.endswith("::size"):
+                                    return nn
+                                if nm == "std::advance":
+                                    seen["adv"] = itp.ev(t[3][1])
+                                    raise Advanced()
+                                if nm in ("std::begin", "std::end") or nm.endswith("::begin") or nm.endswith("::end"):
+                                    return ("iter", nm)
+                                if t[0] == "ctor" or nm.startswith("std::forward"):
+                                    return ("obj", "tmp")
+                                seen.setdefault("other", nm)
+                                return ("opaque", nm)
+                            if kind == "param":
+                                return ("obj", "p%d" % t[1])
+                            raise Unknown(kind)
+                        itp = Interp(fn, oracle)
+                        try:
+                            res = itp.run()
+                        except Advanced:
+                            res = ("advanced", seen.get("adv"))
+                        if size < nn:
+                            ok = res == ("return", False)
+                            want = "no match"
+                        else:
+                            ok = res == ("advanced", size - nn)
+                            want = "advance to position %d" % (size - nn)
+                        if not ok and bad is None:
+                            bad = "range of length %d, %d elements: expected %s; code does %s" % (size, nn, want, res)
+                ctx.ob("C11.b", name, bad is None, pattern=fn.pat, unit=tu.name, inst=fn.q,
+                       detail="" if bad is None else "suffix match length guard: " + bad)
+            except Unknown as u:
+                ctx.ob("C11.b", name, None, pattern=fn.pat, unit=tu.name, inst=fn.q, detail="cannot interpret: %s" % u)
     return n
 
 
